@@ -244,7 +244,7 @@ SO3Base<_Derived>::log(OptJacobianRef J_t_m) const
     {
       Scalar theta = sqrt(theta2);  // rotation angle
       J_t_m->noalias() +=
-        (Scalar(1) / theta2 - (Scalar(1) + cos(theta)) / (Scalar(2) * theta * sin(theta))) *
+        (Scalar(1) / theta2 - cos(theta / Scalar(2)) / (Scalar(2) * theta * sin(theta / Scalar(2)))) *
         tan.hat() * tan.hat();
     }
   }
